@@ -31,7 +31,7 @@ MAP_TRAVERSAL = lambda k: _col(k) in ("width", "height", "has_padding", "literal
 
 PROPS["C12"] = {
     "level": "proof",
-    "rules": [p_symbols.tab_sym, p_symbols.ord_rule, p_symbols.prov_filter],
+    "rules": [p_symbols.tab_sym, p_symbols.ord_rule, p_symbols.prov_filter, only(p_macro.fnc1, lambda k: k.startswith("setter:") or k in ("setters-found", "builder-defaults"), "builder options are kept")],
     "explanation": "The property is a finite statement about literal tables and about which predicate each list "
                    "constructor/filter is wired to. TAB-SYM extracts the per-variant tables of SymbolSize from the typed "
                    "syntax tree (patterns pre-evaluated by rustc) and compares all 48 rows with ISO/IEC 16022 Table 7 / "
@@ -63,7 +63,7 @@ PROPS["C06"] = {
 PROPS["C15"] = {
     "level": "other",
     "rules": [p_charset.tab_iso, p_charset.tab_dispatch, p_charset.tab_eci,
-              p_panic.residue_rule("decode", owner_filter=lambda o: o.startswith("decodation::eci::") or o == "decodation::read_eci", rule="RESIDUE-ECI")],
+              p_panic.residue_rule("decode", owner_filter=lambda o: o.startswith("decodation::eci::") or o == "decodation::read_eci", rule="RESIDUE-ECI"), only(p_charset.str_branch, lambda k: k == "write_eci-iff-some", "ECI header iff requested")],
     "explanation": "Decided in full: the ISO-8859-9/-11 per-byte decision tables composed with the table constants equal the "
                    "standard mappings for all 256 byte values (control/undefined bytes give CharsetError, no index can leave the "
                    "table); the ECI dispatch maps 0/3, 11, 13, 26, 27 to the right decoder and passes 26/27 bytes through unchanged. "
@@ -77,7 +77,7 @@ PROPS["C15"] = {
 
 PROPS["C14"] = {
     "level": "other",
-    "rules": [p_charset.tab_l1, p_charset.str_branch, p_charset.tab_dispatch],
+    "rules": [p_charset.tab_l1, p_charset.str_branch, p_charset.tab_dispatch, p_macro.dom_macro, p_macro.dec_macro],
     "explanation": "Clause-level claim. Decided: both Latin-1 helper tables equal ISO-8859-1 on every code point / byte and are mutually "
                    "inverse (third sentence of the property, in full); encode_str takes the Latin-1 branch without ECI exactly when "
                    "utf8_to_latin1 succeeds and the UTF-8 branch with ECI 26 otherwise, and the ECI header is written iff requested "
@@ -89,7 +89,7 @@ PROPS["C14"] = {
 
 PROPS["C13"] = {
     "level": "proof",
-    "rules": [p_modes.dom_mode, p_modes.fld_enc, p_modes.latch_use],
+    "rules": [p_modes.dom_mode, p_modes.fld_enc, p_modes.latch_use, only(p_macro.fnc1, lambda k: k.startswith("setter:") or k in ("setters-found", "builder-defaults"), "builder options are kept")],
     "explanation": "A latch for mode V is emitted only through latch_from_ascii(V) of a mode taken from the plan (FLD-ENC, LATCH-USE); "
                    "the plan names V only if a plan object for V was constructed, and every construction of PlanImpl::V / switch entry "
                    "(.., V) in add_switches is dominated by the true edge of enabled_modes.contains(V) with the same V, the start plan "
